@@ -481,6 +481,9 @@ func (g *gen) tim(d int, leaf bool) string {
 	case 0:
 		return fmt.Sprintf("addDate(%s, %d, %d, %d)", e(tTime), g.s.Intn(5)-2, g.s.Intn(30)-15, g.s.Intn(80)-40)
 	case 1:
+		if g.s.Intn(3) == 0 { // the zone name comes from the data: one tree, another zone for every caller
+			return "useTimezone(" + e(tTime) + ", zn)"
+		}
 		return "useTimezone(" + e(tTime) + ", " + g.pick([]string{"'UTC'", "'Asia/Shanghai'", "'America/New_York'", "'No/Where'",
 			"'Europe/London'", "'Asia/Kathmandu'", "'Etc/GMT+5'", "'Australia/Lord_Howe'", "'EST'", "'Sim/Torn'", "'Sim/Missing'", "'Sim/Shanghai'"}) + ")"
 	case 2:
@@ -693,6 +696,7 @@ func (d dataSpec) build(log *hostLog, loc *time.Location) map[string]interface{}
 		"fz": float64(0), "fnz": math.Copysign(0, -1),
 		"名前": d.num(2), "x\u0662": d.num(3), "cafe\u0301": strs[(d.Nums[2]+1000)%len(strs)],
 		"z1": nil,
+		"zn": []string{"UTC", "Asia/Shanghai", "America/New_York", "Europe/London", "Asia/Kathmandu", "Etc/GMT+5", "Australia/Lord_Howe", "Sim/Shanghai"}[(d.Nums[6]+1000)%8],
 		"tz": time.Time{},
 		"cv": map[string]interface{}{"Name": "first", "NAME": "second", "nAmE": d.num(3), "namE": nil}, // keys that differ only in case
 		"t1": time.Unix(int64(d.Nums[0])*86400*30+int64(d.Nums[1])*977, int64(d.Nums[2]+1000)*1000).In(loc),
